@@ -333,9 +333,8 @@ def time_oracle(c, rec):
     got = set(rec['impl']['shadow'])
     types = c.get('types') if c.get('types') else None
     req = c['late_srcs'] if c.get('late_srcs') is not None else c.get('srcs')
-    avail = sampled_available(msgs, c.get('srcs'), c.get('max_bytes'))
     for m in timed:
-        other_ok = ((types is None or m['type'] in types) and (req is None or (m['src'] in req and m['src'] in avail))
+        other_ok = ((types is None or m['type'] in types) and (req is None or m['src'] in req)
                     and (c.get('max_bytes') is None or m['off'] + m['size'] <= c['max_bytes']))
         t = m['t8']
         inside = (A is None or A <= t) and (B is None or t < B)
